@@ -30,7 +30,7 @@ func vC09Docs() (JsonNode, JsonNode) {
 	switch vChoice(vParam("FAMS", 5)) {
 	case 0:
 		n := vParam("N", 2)
-		return vNumArray(n), vNumArray(n)
+		return vNumArray(n), vNumArray(vParam("M", n))
 	case 1:
 		nk := vParam("KEYS", 3)
 		return vKeyObj(nk, 1), vKeyObj(nk, 1)
